@@ -150,6 +150,18 @@ pub fn check_world(r: &mut Report, d: &mut Driver, w: &gen::GWorld, tag: &str) {
             r.fail("oracle", "C17/suggested-criteria-not-the-missing-ones", format!("package {} is missing {} but the suggestion names {}", s.package, bits(&f.criteria_failures), bits(&s.suggested_criteria)), &case);
         }
     }
+    // ---- C05 ("every criteria list cargo-vet prints ... denotes the same set it computed"): the
+    // set computed as missing for a failing package is printed for its crate, not a weaker one
+    r.oracle_checked += 1;
+    for (idx, f) in &fail.failures {
+        let name = rep.graph.nodes[*idx].name;
+        let for_crate: Vec<_> = sug.suggestions.iter().filter(|s| rep.graph.nodes[s.package].name == name).collect();
+        if !for_crate.is_empty() && !for_crate.iter().any(|s| bits(&s.suggested_criteria) == bits(&f.criteria_failures)) {
+            let printed: Vec<Vec<&str>> = for_crate.iter().map(|s| mapper.criteria_names(&s.suggested_criteria).collect()).collect();
+            let missing: Vec<&str> = mapper.criteria_names(&f.criteria_failures).collect();
+            r.fail("oracle", &format!("{}/suggest/missing-set-not-printed", if r.prop == "C05" { "C05" } else { "C17" }), format!("{name}:{} is missing {missing:?}, the suggestions for {name} name only {printed:?}", rep.graph.nodes[*idx].version), &case);
+        }
+    }
     // ---- correspondence: the recommendation is a least-cost member of the model's candidates
     for (idx, f) in &fail.failures {
         let p = &rep.graph.nodes[*idx];
